@@ -35,7 +35,11 @@ func (m *ModelServer) Register(server grpc.ServiceRegistrar) {
 }
 
 func (m *ModelServer) CreatePublication(_ context.Context, request *traits.CreatePublicationRequest) (*traits.Publication, error) {
-	return m.model.CreatePublication(request.Publication, WithNewVersion(), WithNewPublishTime(), WithResetReceipt())
+	publication := request.GetPublication()
+	if publication == nil {
+		publication = &traits.Publication{} // a request may leave the publication out altogether: create an empty one
+	}
+	return m.model.CreatePublication(publication, WithNewVersion(), WithNewPublishTime(), WithResetReceipt())
 }
 
 func (m *ModelServer) GetPublication(_ context.Context, request *traits.GetPublicationRequest) (*traits.Publication, error) {
